@@ -265,3 +265,23 @@ fn kb_parsers_vp9_opus_small() {
     let _ = crate::codec::opus::opus_packet_samples(&d);
     core::mem::forget(c); core::mem::forget(k);
 }
+
+/// C04/C09 (complete over ALL f64 bit patterns of the first frame's presentation time, a second frame's presentation time and the audio
+/// time; reordered video through write_video_with_dts): audio is accepted only if it is not earlier than the FIRST ACCEPTED video
+/// frame's presentation time - a later frame with a smaller PTS does not lower that gate.
+#[kani::proof]
+#[kani::unwind(12)]
+#[kani::stub(crate::invariant_ppt::__assert_invariant_impl, stub_inv)]
+fn k_api_audio_gate() {
+    let mut m = MuxerBuilder::new(Vec::new()).video(VideoCodec::Vp9, 16, 16, 30.0).audio(AudioCodec::Opus, 48000, 2).build().ok().unwrap();
+    let p0: f64 = kani::any();
+    let p1: f64 = kani::any();
+    let a: f64 = kani::any();
+    match m.write_video_with_dts(p0, 0.0, &VP9_KEY, true) { Ok(()) => {}, Err(e) => { core::mem::forget(e); core::mem::forget(m); return; } }
+    match m.write_video_with_dts(p1, 0.5, &VP9_DELTA, false) { Ok(()) => {}, Err(e) => { core::mem::forget(e); } }
+    match m.write_audio(a, &OPUS_PKT) {
+        Ok(()) => { assert!(a >= p0); }
+        Err(e) => { core::mem::forget(e); }
+    }
+    core::mem::forget(m);
+}
